@@ -275,7 +275,8 @@ def run_shard(shard):
     elif leg == "scan-tree":
         k = shard["k"]
         n = k + 1
-        for lt in itertools.product((0.0, 1.0, float("nan")) if shard["func"] != "nancumsum" else (0.0, 1.0), repeat=n):
+        alphabet = (0.0, 1.0, float("nan")) if (shard["func"] != "nancumsum" and k <= 4) else (0.0, 1.0)
+        for lt in itertools.product(alphabet, repeat=n):
             if all(x != x for x in lt):
                 continue
             scan_tree_point(res, shard["func"], lt, k)
